@@ -367,6 +367,8 @@ func enumFoldPoolShapes(wrap func(g *GoCase) any) func(emit func(c any) bool) {
 			{"ZF64", []gomodel.GoVal{{F: f64(0)}, {F: f64(-2.5)}, {F: f64(2.5)}}},
 			{"ZFlag", []gomodel.GoVal{{B: false}, {B: true}}},
 			{"ZU8", []gomodel.GoVal{{U: 0}, {U: 4}, {U: 3}}},
+			{"ZStr", []gomodel.GoVal{{S: []byte("")}, {S: []byte("odd")}, {S: []byte("even")}}},
+			{"ZList", []gomodel.GoVal{{Elems: []gomodel.GoVal{}}, {Elems: []gomodel.GoVal{{S: []byte("a")}, {S: []byte("a")}}}, {Elems: []gomodel.GoVal{{S: []byte("a")}, {S: []byte("b")}}}}},
 		} {
 			b := gomodel.TypeDesc{Kind: "pool", Pool: z.name}
 			pb := gomodel.TypeDesc{Kind: "ptr", Elem: &b}
